@@ -398,27 +398,27 @@ theorem avgAllelesCounts_eq_spec (rows : CRows) (L : Int) :
     avgAllelesCounts rows L = Spec.allelesCounts rows L.toNat :=
   Proofs.StatsSites.avgAllelesCounts_eq rows L
 
-/-- **`CountDifferences`** crashes (`make` with length −1) exactly on an alignment without sequences -/
-theorem countDifferences_panic_iff (rows : CRows) : countDifferences rows = none ↔ rows = [] := by
-  cases rows <;> simp [countDifferences]
+/-- **`CountDifferences`** on an alignment without sequences returns two empty results (no crash) -/
+theorem countDifferences_empty : countDifferences [] = ([], []) := rfl
 
 /-- **`CountDifferences`, first result**: every kind of difference with the first row, in order of first
 appearance -/
-theorem countDifferences_all_eq_spec (f : String × Seq) (rest : CRows) :
-    (countDifferences (f :: rest)).map Prod.fst = some (Spec.allDiffs (f :: rest)) := by
-  simp only [countDifferences, Option.map_some, Option.some.injEq]
-  exact Proofs.StatsDiff.countDifferences_all f rest
+theorem countDifferences_all_eq_spec (rows : CRows) : (countDifferences rows).1 = Spec.allDiffs rows := by
+  cases rows with
+  | nil => rfl
+  | cons f rest => exact Proofs.StatsDiff.countDifferences_all f rest
 
 /-- **`CountDifferences`, second result**: one map per row other than the first; its keys are distinct (they
 come in order of first appearance) and it holds, for every kind of difference, the number of positions where
 that row differs from the first row in that way -/
 theorem countDifferences_counts_eq_spec (f : String × Seq) (rest : CRows) :
-    ∃ per, (countDifferences (f :: rest)).map Prod.snd = some per ∧ per.length = rest.length ∧
+    (countDifferences (f :: rest)).2.length = rest.length ∧
     ∀ i (hi : i < rest.length),
-      ((per.getD i []).map Prod.fst).Nodup ∧
-      ∀ p, lookup p (per.getD i []) =
+      (((countDifferences (f :: rest)).2.getD i []).map Prod.fst).Nodup ∧
+      ∀ p, lookup p ((countDifferences (f :: rest)).2.getD i []) =
         if Spec.diffCount f.2 rest[i].2 p > 0 then some (Spec.diffCount f.2 rest[i].2 p) else none := by
-  refine ⟨(countDifferences1 f rest).2, rfl, ?_⟩
+  show (countDifferences1 f rest).2.length = rest.length ∧ _
+  simp only [countDifferences]
   rw [Proofs.StatsDiff.countDifferences_rows]
   refine ⟨by simp, ?_⟩
   intro i hi
@@ -637,6 +637,20 @@ theorem profileCount_eq_spec (rows : CRows) (L : Int) (prof : List (Byte × List
         simp only [Option.getD_some] at this
         rw [this]
 
+/-- **`CountsAt(i)`**: an error exactly for a character index outside `[0, number of characters)` — never a crash -/
+theorem profileCountsAt_error_iff (prof : List (Byte × List Nat)) (i : Int) :
+    profileCountsAt prof i = none ↔ (i < 0 ∨ i ≥ prof.length) := by
+  unfold profileCountsAt
+  by_cases h : i < 0 ∨ i ≥ prof.length
+  · have : (decide (i ≥ (prof.length : Int)) || decide (i < 0)) = true := by
+      simp only [Bool.or_eq_true, decide_eq_true_eq]; omega
+    simp [this, h]
+  · have : ¬ ((decide (i ≥ (prof.length : Int)) || decide (i < 0)) = true) := by
+      simp only [Bool.or_eq_true, decide_eq_true_eq]; omega
+    simp only [this, if_false, h, iff_false]
+    have hlt : i.toNat < prof.length := by omega
+    simp [List.getElem?_eq_getElem hlt]
+
 /-! ## non-vacuity -/
 
 example : maxLoop false false 78 110 [(65, 2), (67, 2), (71, 1)] (71, 5, 0, 0) = (65, 2, 5, 2) := by decide
@@ -661,7 +675,7 @@ example : numGapsUnique exRows 4 = [0, 0, 0, 0] ∧
 example : numMutationsUnique exRows 4 1 = some [2, 1, 1, 2] ∧ Spec.numMutationsUnique exRows 4 1 = [2, 1, 1, 2] := by
   decide
 example : numMutationsUnique [("a", [200])] 1 1 = none := by decide
-example : (countDifferences exRows).map Prod.fst = some [(65, 97), (99, 71), (65, 67), (78, 84), (45, 46), (99, 67), (45, 65)] := by decide
+example : (countDifferences exRows).1 = [(65, 97), (99, 71), (65, 67), (78, 84), (45, 46), (99, 67), (45, 65)] := by decide
 example : Spec.allDiffs exRows = [(65, 97), (99, 71), (65, 67), (78, 84), (45, 46), (99, 67), (45, 65)] := by decide
 /-- query `AR-NTTG` against reference `AC--T-A`: R/C incompatible; `N`, `T` inserted at coordinate 2; `T` inserted
 at coordinate 3; G/A incompatible -/
